@@ -21,7 +21,7 @@ mod verif_cex {
             "VERIF-CEX {}",
             json!({"unit": unit, "what": what, "input": input, "expected": expected, "observed": observed})
         );
-        panic!("VERIF-CEX {unit}: {what}");
+        panic!("counterexample for unit {unit}: {what}");
     }
 
     fn cex_none(unit: &str, cases: u64, bound: &str) {
@@ -444,7 +444,7 @@ mod verif_cex {
     const TRIM_ALPHABET: [Sym; 12] = [
         t("a"), t("b"), t("ab"), t("  a"), t("b  "), t(""), t("   "), t("2"), t("10"), t("9.5"), t("-3"), t("2.0"),
     ];
-    const TRIM_ALPHABET_SMALL: [Sym; 7] = [t("a"), t("b"), t("\ta "), t(""), t("10"), t("9.5"), t("B")];
+    const TRIM_ALPHABET_SMALL: [Sym; 6] = [t("a"), t("b"), t("\ta "), t(""), t("10"), t("B")];
 
     /// Alphabet for the pattern runs (annotated keys).
     const PATTERN_ALPHABET: [Sym; 12] = [
@@ -646,7 +646,7 @@ mod verif_cex {
         let parsers = parsers();
         let mut cases = 0u64;
         // (a) no pattern: every sequence of <= 4 lines over the 12-line alphabet, <= 5 lines over the
-        //     7-line alphabet; x 6 direction spellings x {lexicographic, numeric}; layout 0.
+        //     6-line alphabet; x 6 direction spellings x {lexicographic, numeric}; layout 0.
         let mut fast = Fast::new(&parsers);
         let mut trim_configs = Vec::new();
         for direction in DIRECTIONS {
@@ -719,7 +719,7 @@ mod verif_cex {
         cex_none(
             "V1",
             cases,
-            "no pattern: all sequences of <=4 lines over {a,b,ab,'  a','b  ','','   ',2,10,9.5,-3,2.0} and <=5 lines over {a,b,'\\ta ','',10,9.5,B} x {asc,desc,'',ASC,Desc,bare} x {lexicographic,numeric}; patterns (regex compile is ~1 ms in debug): all sequences of <=2 lines over 12 annotated `k=..` lines x {group,plain} x {asc,desc,ASC} x {lexicographic,numeric}, all 3-line sequences over 9 of them x 6 configurations; 6 comment layouts x (no pattern: sequences of <=3 lines over 6 lines; patterns: <=2 lines); 1500 random blocks of 6..=15 lines",
+            "no pattern: all sequences of <=4 lines over {a,b,ab,'  a','b  ','','   ',2,10,9.5,-3,2.0} and <=5 lines over {a,b,'\\ta ','',10,B} x {asc,desc,'',ASC,Desc,bare} x {lexicographic,numeric}; patterns (regex compile is ~1 ms in debug): all sequences of <=2 lines over 12 annotated `k=..` lines x {group,plain} x {asc,desc,ASC} x {lexicographic,numeric}, all 3-line sequences over 9 of them x 6 configurations; 6 comment layouts x (no pattern: sequences of <=3 lines over 6 lines; patterns: <=2 lines); 1500 random blocks of 6..=15 lines",
         );
     }
 
